@@ -918,6 +918,159 @@ theorem front_registry_is_regUpTo (cfg : Cfg) (fs : FS) (builtins : Registry) (r
     conv => lhs; rw [hpre.eq_map, flatMap_evDefs_map_finished]
     simp [evDefs]
 
+/-! ### completeness of `FinishedAt`: every file of the finish order is finished in a successful run -/
+
+theorem finishFile_registers (cfg : Cfg) (file : APath) (contents : List Content) (res : PResult) (st : PState)
+    (r : PResult) (st' : PState) (h : finishFile cfg file contents res st = .ok (r, st')) :
+    ∃ reg, registerAll st.reg (walkContents { file := showPath file, keys := cfg.keys, defaultDeriving := cfg.defaultDeriving } []
+      contents).regs = .ok reg := by
+  unfold finishFile at h
+  simp only at h
+  split at h
+  · cases h
+  · rename_i reg hreg; exact ⟨reg, hreg⟩
+
+theorem doLoads_cons_ok (cfg : Cfg) (fs : FS) (rec : ParseFn) (stack : List APath) (file spelled : APath)
+    (l : LoadAt) (ls : List LoadAt) (res : PResult) (st : PState) (res' : PResult) (st' : PState)
+    (h : doLoads cfg fs rec stack file spelled (l :: ls) res st = .ok (res', st')) :
+    ∃ r1 s1, doLoads cfg fs rec stack file spelled [l] res st = .ok (r1, s1)
+      ∧ doLoads cfg fs rec stack file spelled ls r1 s1 = .ok (res', st') := by
+  have := doLoads_append cfg fs rec stack file spelled [l] ls res st
+  rw [List.singleton_append, h] at this
+  split at this
+  · cases this
+  · rename_i r1 s1 h1
+    exact ⟨r1, s1, h1, this.symm⟩
+
+theorem doLoads_complete (cfg : Cfg) (fs : FS) (n : Nat) (R0 : Registry)
+    (ihn : ∀ stack file spelled st res st' acc, parseOne cfg fs n stack file spelled st = .ok (res, st') →
+      SelfOk fs spelled file → Sim fs R0 (stack ++ [file]) st acc →
+      ∀ q, LoadEvent.finished q ∈ (loadOrder cfg fs n file spelled acc).2 →
+        LoadEvent.finished q ∈ acc.2 ∨ ∃ r, FinishedAt cfg fs n stack file spelled st q r)
+    (stack0 : List APath) (file spelled : APath) (st0 : PState) (text : String) (toks : List Token)
+    (contents : List Content) (hself : SelfOk fs spelled file) (hfile : fs.get file = some (.idl text))
+    (hlex : lex text = some toks) (all : List LoadAt) (hparse : parseFile toks = some ⟨all, contents⟩)
+    (rest pre : List LoadAt) (hall : all = pre ++ rest) (res0 : PResult) (s0 : PState) (res1 : PResult) (st1 : PState)
+    (a0 : OrderAcc)
+    (hpre : doLoads cfg fs (parseOne cfg fs n) (stack0 ++ [file]) file spelled pre {} st0 = .ok (res0, s0))
+    (hrest : doLoads cfg fs (parseOne cfg fs n) (stack0 ++ [file]) file spelled rest res0 s0 = .ok (res1, st1))
+    (hsim : Sim fs R0 (stack0 ++ [file]) s0 a0) :
+    ∀ q, LoadEvent.finished q ∈ (rest.foldl (loadStep cfg fs (loadOrder cfg fs n) spelled) a0).2 →
+      LoadEvent.finished q ∈ a0.2 ∨ ∃ r, FinishedAt cfg fs (n + 1) stack0 file spelled st0 q r := by
+  induction rest generalizing pre res0 s0 a0 with
+  | nil => intro q hq; exact Or.inl hq
+  | cons l ls ih =>
+    intro q hq
+    simp only [List.foldl_cons] at hq
+    obtain ⟨r1, s1, h1, h2⟩ := doLoads_cons_ok _ _ _ _ _ _ _ _ _ _ _ _ hrest
+    have hpre' : doLoads cfg fs (parseOne cfg fs n) (stack0 ++ [file]) file spelled (pre ++ [l]) {} st0 = .ok (r1, s1) := by
+      rw [doLoads_append, hpre]; exact h1
+    have hsim1 := doLoads_order cfg fs n R0
+      (fun stack file spelled st res st' acc hh hs hm => parseOne_order cfg fs R0 n stack file spelled st res st' acc hh hs hm)
+      (stack0 ++ [file]) file spelled text hself hfile (by simp) [l] res0 s0 r1 s1 a0 h1 hsim
+    simp only [List.foldl_cons, List.foldl_nil] at hsim1
+    rcases ih (pre ++ [l]) (by rw [hall]; simp) r1 s1 _ hpre' h2 hsim1 q hq with hq1 | hq1
+    · -- the event is produced by the line `l` itself
+      clear hq ih
+      unfold loadStep at hq1
+      split at hq1
+      · exact Or.inl hq1
+      · rename_i c p hfind
+        split at hq1
+        · rename_i himp
+          split at hq1
+          · exact Or.inl hq1
+          · rename_i hv
+            have hv' : p ∉ a0.1 := by simpa using hv
+            have hst : p ∉ stack0 ++ [file] := fun hm => hv' ((hsim.1 p).mpr (Or.inl hm))
+            have hi : p ∉ s0.imported := fun hm => hv' ((hsim.1 p).mpr (Or.inr hm))
+            have hs : (c.spelledAbsolute && c.path == spelled) = false := by
+              cases hb : (c.spelledAbsolute && c.path == spelled) with
+              | false => rfl
+              | true =>
+                exfalso
+                simp only [Bool.and_eq_true, beq_iff_eq] at hb
+                obtain ⟨_, _, _, _, hq'⟩ := findFile_first cfg fs spelled _ c p hfind
+                rw [hb.2] at hq'
+                exact hst (by rw [hself p hq']; simp)
+            have hstc : (stack0 ++ [file]).contains p = false := by simpa using hst
+            have hic : s0.imported.contains p = false := by simpa using hi
+            simp only [doLoads, hfind, hs, himp, hstc, hic, Bool.false_eq_true, if_false, if_true] at h1
+            cases hr : parseOne cfg fs n (stack0 ++ [file]) p c.path { s0 with imported := s0.imported ++ [p] } with
+            | error a => rw [hr] at h1; cases h1
+            | ok v =>
+              obtain ⟨r2, s2⟩ := v
+              rcases ihn _ _ _ _ _ _ _ hr (SelfOk.found cfg fs spelled _ c p hfind) (Sim.enter p hsim) q hq1 with h3 | ⟨r, h3⟩
+              · exact Or.inl h3
+              · refine Or.inr ⟨r, ?_⟩
+                exact FinishedAt.nested hfile hlex (by rw [hparse, hall]) hpre hfind hs himp hstc hic h3
+        · split at hq1
+          · simp only [List.mem_append, List.mem_singleton] at hq1
+            rcases hq1 with hq1 | hq1
+            · exact Or.inl hq1
+            · cases hq1
+          · exact Or.inl hq1
+    · exact Or.inr hq1
+
+/-- **Completeness.** In a successful call every file the search reports as finished during the call is indeed finished
+    (`FinishedAt`), against some registry — which `finishedAt_events` / `front_registry_is_regUpTo` then identify. -/
+theorem finishedAt_complete (cfg : Cfg) (fs : FS) (R0 : Registry) (fuel : Nat) (stack : List APath) (file spelled : APath)
+    (st : PState) (res : PResult) (st' : PState) (acc : OrderAcc)
+    (h : parseOne cfg fs fuel stack file spelled st = .ok (res, st'))
+    (hself : SelfOk fs spelled file) (hsim : Sim fs R0 (stack ++ [file]) st acc) :
+    ∀ q, LoadEvent.finished q ∈ (loadOrder cfg fs fuel file spelled acc).2 →
+      LoadEvent.finished q ∈ acc.2 ∨ ∃ r, FinishedAt cfg fs fuel stack file spelled st q r := by
+  induction fuel generalizing stack file spelled st res st' acc with
+  | zero => simp [parseOne] at h
+  | succ n ih =>
+    intro q hq
+    simp only [parseOne] at h
+    split at h
+    · rename_i text hfile
+      split at h
+      · cases h
+      · rename_i toks hlex
+        split at h
+        · cases h
+        · rename_i loads contents hparse
+          have hpt : parseText text = some { loads := loads, contents := contents } := by
+            simp [parseText, hlex, hparse]
+          split at h
+          · cases h
+          · rename_i res1 st1 hd
+            simp only [loadOrder, hfile, hpt, List.mem_append, List.mem_singleton] at hq
+            rcases hq with hq | hq
+            · exact doLoads_complete cfg fs n R0
+                (fun stack file spelled st res st' acc hh hs hm => ih stack file spelled st res st' acc hh hs hm)
+                stack file spelled st text toks contents hself hfile hlex loads hparse loads [] rfl {} st res1 st1 acc
+                (by simp [doLoads]) hd hsim q hq
+            · cases hq
+              obtain ⟨reg, hreg⟩ := finishFile_registers _ _ _ _ _ _ _ h
+              exact Or.inr ⟨reg, FinishedAt.own hfile hlex hparse hd hreg⟩
+    · rename_i pos hfile
+      simp only [loadOrder, hfile] at hq
+      exact Or.inl hq
+    · cases h
+
+/-- In a successful run from `root`, every file of the finish order is finished, against `regUpTo` of its number (when
+    no `@extern` line loads an external type file). -/
+theorem front_finishes_all (cfg : Cfg) (fs : FS) (builtins : Registry) (root : APath) (res : PResult) (st : PState)
+    (h : parseOne cfg fs (fs.files.length + 2) [] (normPath root) root { reg := builtins } = .ok (res, st)) :
+    ∀ q ∈ rootOrder cfg fs root,
+      ∃ r, FinishedAt cfg fs (fs.files.length + 2) [] (normPath root) root { reg := builtins } q r := by
+  intro q hq
+  rw [← rootEvents_files, List.mem_filterMap] at hq
+  obtain ⟨e, he, hfile⟩ := hq
+  cases e with
+  | extern p => simp [LoadEvent.file?] at hfile
+  | finished p =>
+    simp only [LoadEvent.file?, Option.some.injEq] at hfile
+    subst hfile
+    rcases finishedAt_complete cfg fs builtins _ [] _ root _ res st ([normPath root], []) h (SelfOk.root fs root)
+      ⟨Visited.root root, by simp⟩ p he with h1 | h1
+    · cases h1
+    · exact h1
+
 /-! ### non-vacuity
 
 Compiled evaluation with `#guard` — tests, not proofs (kernel reduction of the path-splitting functions is too slow for
